@@ -688,3 +688,53 @@ Definition demo_v1 : list op :=
     (* a program paid by account whose instruction fails after it was paid for: storage refunded *)
     Exec3 (PayAccount 1 100) None 5 [mkI KPlain (mkRC 10 20 0 0 0) true false false false] (mkProp 0 0 0 0 0 0);
     Renew3 1 2 8 100 0 0 1000000 0 0 9349 1251 (mkFC 5000 408 5000 408 0) ].
+
+(** * account spending never panics on a reachable state *)
+Definition covered (fs : list frow) (cs : list crow) : Prop :=
+  forall c r, find_con c cs = Some r -> fsum c fs <= uFund (cuse r).
+
+Lemma distribute_total a fs : forall u cs,
+  covered fs cs -> refs_ok fs cs -> exists fs' cs', distribute a u fs cs = Ok (fs', cs').
+Proof.
+  induction fs as [|f t IH]; intros u cs Cv Rf; cbn [distribute]; [eauto|].
+  assert (Cv' : forall cs1, (forall c r1, find_con c cs1 = Some r1 -> exists r, find_con c cs = Some r /\
+                 (uFund (cuse r1) = uFund (cuse r) \/ (c = fcon f /\ uFund (cuse r) <= uFund (cuse r1) + famt f))) ->
+               covered t cs1).
+  { intros cs1 H c r1 F1. destruct (H _ _ F1) as (r & F & D). specialize (Cv _ _ F). cbn [fsum] in Cv.
+    destruct D as [D|[-> D]]; [destruct (fcon f =? c); lia|rewrite N.eqb_refl in Cv; lia]. }
+  destruct ((facct f =? a) && negb (famt f =? 0)) eqn:E.
+  - destruct (dist_row u (famt f)) as [[u' rem] add] eqn:D.
+    pose proof (dist_row_spec _ _ _ _ _ D) as (D1 & D3 & D4 & D5).
+    destruct (find_con (fcon f) cs) as [x|] eqn:Fx; [|exfalso; apply (Rf f); [now left|exact Fx]].
+    pose proof (Cv _ _ Fx) as Cx. cbn [fsum] in Cx. rewrite N.eqb_refl in Cx.
+    unfold con_move at 1. rewrite Fx. unfold csub.
+    destruct (famt f - rem <=? uFund (cuse x)) eqn:L; [|lia]. cbn [bind].
+    match goal with |- context [distribute a u' t ?CS] => set (cs1 := CS) end.
+    assert (M : con_move cs (fcon f) (famt f - rem) add = Ok cs1).
+    { unfold con_move. rewrite Fx. unfold csub. rewrite L. reflexivity. }
+    apply con_move_spec in M; [|lia|auto|auto]. destruct M as [M1 M2].
+    destruct (IH u' cs1) as (t' & cs2 & R).
+    + apply Cv'. intros c r1 F1.
+      destruct (in_map_find_con c cs) as (r & F); [rewrite <- M1; rewrite <- (find_con_cid _ _ _ F1); apply in_map; eapply find_con_In; eauto|].
+      destruct (M2 _ _ F) as (r1' & F1' & _ & _ & _ & _ & G). rewrite F1 in F1'. inversion F1'; subst r1'.
+      exists r. split; [exact F|]. destruct (c =? fcon f) eqn:Ec; [right; split; lia|left; lia].
+    + intros g Hg. specialize (Rf g (or_intror Hg)).
+      destruct (find_con (fcon g) cs) as [y|] eqn:Fy; [|contradiction].
+      destruct (M2 _ _ Fy) as (y' & Fy' & _). congruence.
+    + rewrite R. cbn. eauto.
+  - destruct (IH u cs) as (t' & cs1 & R).
+    + apply Cv'. intros c r1 F1. exists r1; split; [exact F1|left; reflexivity].
+    + intros g Hg. apply Rf. now right.
+    + rewrite R. cbn. eauto.
+Qed.
+
+Lemma v1_debit_total l a u : is_panic (debit_store (runs init l) a u) = false.
+Proof.
+  destruct (runs_inv l init Inv_init) as (ND & RO & RF).
+  unfold debit_store. destruct (alookup a (accts (runs init l))) as [bal|]; [|reflexivity].
+  destruct (bal <? atotal u); [reflexivity|].
+  destruct (distribute_total a (funds (runs init l)) u (cons (runs init l))) as (fs & cs & R).
+  - intros c r F. destruct (RO r (find_con_In _ _ _ F)) as [_ B]. rewrite (find_con_cid _ _ _ F) in B. lia.
+  - exact RF.
+  - rewrite R. reflexivity.
+Qed.
